@@ -314,6 +314,7 @@ def run_hyp(desc, prop, selector):
 def count_pieces(text):
     """(#non-empty '/'-delimited pieces of the pattern text, whether some '/' lies inside parentheses or brackets)."""
     depth = 0
+    bdepth = 0
     inside = False
     i = 0
     pieces = []
@@ -324,7 +325,7 @@ def count_pieces(text):
         c = text[i]
         if c == '\\' and i + 1 < len(text):
             if text[i + 1] == '/':
-                if depth:
+                if depth or bdepth:
                     inside = True
                 pieces.append(cur)
                 cur = ''
@@ -332,12 +333,16 @@ def count_pieces(text):
                 cur += text[i:i + 2]
             i += 2
             continue
-        if c in '([':
+        if c == '(':
             depth += 1
-        elif c in ')]':
+        elif c == ')':
             depth = max(0, depth - 1)
+        elif c == '[':
+            bdepth += 1
+        elif c == ']':
+            bdepth = max(0, bdepth - 1)      # a `]` never closes a parenthesis (`!(]/)` keeps its `/` inside the group)
         if c == '/':
-            if depth:
+            if depth or bdepth:
                 inside = True
             pieces.append(cur)
             cur = ''
